@@ -171,6 +171,39 @@ static int safety(const char* path, uint64_t seed) {
 		JW w; w.s("kind", "unsafe").s("obs", v).i("n", c.n).ia("t", c.t).i("x", c.x).i("map", shared[0] % NMAPS).s("detail", detail.substr(0, 1200)); w.emit();
 		shared[0] += 1;
 	}
+	// tables of 3..9 dimensions: every entry point at points inside, in the margins, outside and at NaN; the gradient of a table
+	// with more dimensions than the SIMD layout has lanes for (ndim + 1 > PHOTOSPLINE_MAXDIM) must be refused by exception
+	for (int D = 3; D <= 9; D++) {
+		std::string detail;
+		std::string v = in_child([&]() -> std::string {
+			alarm(120);
+			Rng rng(seed + D); TableSpec s; s.ndim = D;
+			for (int d = 0; d < D; d++) { uint32_t o = (uint32_t)((d + D) % 3); s.order.push_back(o); std::vector<double> k; for (uint32_t j = 0; j < 2 * o + 2 + (d == 0 ? 1 : 0); j++) k.push_back(j + 0.5 * (j % 2)); s.knots.push_back(k); }
+			s.coeffs.resize(s.ncoeffs()); for (auto& c : s.coeffs) c = (float)rng.range(-1, 1);
+			Table t; PVA::build(t, s, PAD_GARBAGE); EvalPaths ep(t); std::string bad;
+			for (int rep = 0; rep < 6; rep++) {
+				std::vector<double> x(D); std::vector<int> c(D, 0); std::vector<double> out(D + 2, 0);
+				for (int d = 0; d < D; d++) { double lo = s.knots[d].front(), hi = s.knots[d].back(); x[d] = rep == 0 ? 0.5 * (lo + hi) : (rep == 1 ? hi : lo + (hi - lo) * rng.unit()); }
+				if (rep == 4) x[D - 1] = std::numeric_limits<double>::quiet_NaN(); if (rep == 5) x[0] = 1e300;
+				volatile double sink = 0;
+				for (int p = 0; p < EvalPaths::NCALL; p++) sink = sink + ep.call(p, x.data());
+				for (int p = 0; p < EvalPaths::NSC; p++) {
+					if (!ep.sc(p, x.data(), c.data())) continue;
+					for (int q = 0; q < EvalPaths::NVAL; q++) { sink = sink + ep.val(q, x.data(), c.data(), 0); sink = sink + ep.val(q, x.data(), c.data(), (1 << D) - 1); sink = sink + ep.val(q, x.data(), c.data(), 1 << (D - 1)); }
+					for (int q = 0; q < EvalPaths::NGRAD; q++) {
+						bool threw = false; try { ep.grad(q, x.data(), c.data(), out.data()); } catch (std::runtime_error&) { threw = true; }
+						if (threw != (D + 1 > PHOTOSPLINE_MAXDIM) && bad.empty()) bad = std::string(threw ? "gradient-refused-for-supported-dimension-count " : "gradient-not-refused ") + EvalPaths::gradname(q);
+					}
+					std::vector<unsigned> dv(D, 0); dv[D - 1] = 2; dv[0] = 1;
+					for (int q = 0; q < EvalPaths::NDER; q++) sink = sink + ep.der(q, x.data(), c.data(), dv.data());
+				}
+				shared[1] += 1;
+			}
+			return bad.empty() ? "fine" : bad;
+		}, 300, &detail);
+		bool fine = v == "ok" && detail.compare(0, 4, "fine") == 0;
+		if (!fine) { crashes++; JW w; w.s("kind", "unsafe").s("obs", v == "ok" ? detail.substr(0, detail.find('\n')) : v).i("n", -D).ia("t", std::vector<long>()).i("x", 0).i("map", 0).s("detail", detail.substr(0, 1200)); w.emit(); }
+	}
 	JW w; w.s("kind", "summary").i("cases", (long)lines.size()).i("evaluations", shared[1]).i("mismatches", crashes); w.emit();
 	return 0;
 }
